@@ -38,6 +38,8 @@ def _const(v):
     if isinstance(v, bool):
         return None
     if isinstance(v, (int, float)):
+        if isinstance(v, float) and (v != v or v in (float("inf"), float("-inf"))):
+            return None  # a non-finite literal is not a scaling constant
         return Fraction(v).limit_denominator(10 ** 6)
     return None
 
